@@ -17,6 +17,8 @@
 (*                  fresh value                                            *)
 (*   Templates      module-level constants unchanged                       *)
 (*   EarlierKept    objects returned earlier are unchanged                 *)
+(*   InputsKept     the arrays / dicts / dataset a grid was built from     *)
+(*                  are as they were before construction                   *)
 (* Verdicts are total: a failing clause is printed as <<"V", tid, l, name>>*)
 (* and the trace goes on; <<"E", tid, n>> marks a trace consumed to its    *)
 (* end.  Descriptive mismatches (materialised set) are printed as "D".     *)
@@ -69,7 +71,8 @@ Failed(e, w) ==
              ResultFresh |-> e.res_ok,
              StoredFresh |-> e.bad = <<>>,
              Templates   |-> e.tmpl = <<>>,
-             EarlierKept |-> e.earlier = <<>> ]
+             EarlierKept |-> e.earlier = <<>>,
+             InputsKept  |-> e.inputs = <<>> ]
   IN { k \in DOMAIN c : ~c[k] }
 
 \* descriptive: variables that appeared in the dataset though the dependency table does not predict them
